@@ -248,6 +248,10 @@ func (s *SCION) DecodeFromBytes(data []byte, df gopacket.DecodeFeedback) error {
 	if err != nil {
 		return err
 	}
+	if l := s.Path.Len(); l != pathLen {
+		return serrors.New("invalid header, header length does not match the path",
+			"hdrBytes", hdrBytes, "pathLen", pathLen, "decodedPathLen", l)
+	}
 	s.Contents = data[:hdrBytes]
 	s.Payload = data[hdrBytes:]
 
